@@ -461,6 +461,16 @@ func cmdRun(args []string) int {
 			}
 			for i := range ch {
 				jobs[i] = runJob(l, jobs[i].h, jobs[i].params, *tier, known, workdir, *trace, cpu)
+				if jl := os.Getenv("VERIF_JOBLOG"); jl != "" {
+					if f, err := os.OpenFile(jl, os.O_APPEND|os.O_CREATE|os.O_WRONLY, 0o644); err == nil {
+						np := -1
+						if jobs[i].res != nil {
+							np = jobs[i].res.Paths
+						}
+						fmt.Fprintf(f, "%s %v %.1fs paths=%d err=%q\n", jobs[i].h.Name, jobs[i].params, jobs[i].wall.Seconds(), np, jobs[i].err)
+						f.Close()
+					}
+				}
 			}
 		}(w)
 	}
